@@ -143,6 +143,9 @@ func setupUpd(c UpdCase) *updEnv {
 	tree["rules/REQUEST-901-INITIALIZATION.conf"] = "# other file\nSecRule ARGS \"@rx untouched\" \\\n    \"id:901100,\\\n    phase:1\"\n"
 	// a second, unrelated assembly file whose rule is in sync and which sorts after every 932 target
 	tree["regex-assembly/933100.ra"] = "insync\n"
+	// assembly files that are not named like a rule and sort before every target: --all passes them by
+	tree["regex-assembly/0-scratch.ra"] = "scratch\n"
+	tree["regex-assembly/000000-wip.ra"] = "work in progress\n"
 	tree["rules/REQUEST-933-APPLICATION-ATTACK-PHP.conf"] = "SecRule ARGS \"@rx insync\" \\\n    \"id:933100,\\\n    phase:2\"\n"
 	tree["tests/regression/tests/x/932100.yaml"] = "---\nmeta:\n  name: x\ntests:\n  - test_id: 7\n"
 	root := sb.Path("crs")
